@@ -54,7 +54,7 @@ def _octree(family):
 def _cloud(draw, family, cls):
     n = draw(st.integers(1, 8))
     spec = {"cls": cls, "pts": draw(st.lists(S.pt3, min_size=n, max_size=n)),
-            "scale": 1.0 if family == "A" else draw(st.sampled_from([1.0, 1.0, 0.1, 1000.0, 1 / 3.0]))}
+            "scale": 1.0 if family == "A" else draw(st.sampled_from([1.0, 0.1, 0.1, 1000.0, 1 / 3.0, 0.7]))}
     # the object is created somewhere else, its extent is looked at once, then the vertices are assigned where they belong
     spec["moved"] = draw(st.sampled_from([None, None, None, [100.0, 0.0, 0.0], [-7.5, 12.0, 3.0]]))
     if cls == "Points":
@@ -81,7 +81,7 @@ def _object(family):
 def _box(family):
     idx = st.integers(0, 40)
     width = st.sampled_from([0, 1, 1, 2, 2, 3, 3, 5, 8, 40])
-    modes = ["free"] * 8 + ["all", "miss", "point", "point", "touch", "touch"] + (["thin"] * 5 if family == "B" else ["thin"])
+    modes = ["free"] * 8 + ["all", "miss", "point", "point", "touch", "touch"] + (["thin"] * 5 + ["touch"] * 6 if family == "B" else ["thin"])
     return st.fixed_dictionaries({
         "mode": st.sampled_from(modes), "axis": st.sampled_from([0, 1, 1, 2]),
         "a": st.lists(idx, min_size=3, max_size=3), "d": st.lists(width, min_size=3, max_size=3),
